@@ -218,3 +218,22 @@ prop("C19", level="proof",
      explanation="per-category logic of is_tag_group_enabled proved against the documented formula for tag groups "
                  "of any size; should_exclude_with / composite / should_run_with proved over it",
      notes=["tag schema regex and grouping generator are outside the subset: bounded stand-in only"])
+
+# -- the matcher keeps the provider object it is given (providers are filled / switched after construction) ----------
+contract("abs:ActiveTagMatcher.make_tag_pattern", trusted=True, pos_params=["tag_prefixes", "value_separator"],
+         defaults={"value_separator": None}, pure=True, result="any", doc="compiles the tag-schema regex (bounded: b_c19)")
+contract(T + "ActiveTagMatcher.__init__", props=P,
+         params={"self": "ref:ActiveTagMatcher", "value_provider": "any", "tag_prefixes": "any", "value_separator": "any",
+                 "ignore_unknown_categories": "opt:bool"},
+         self_classes=["ActiveTagMatcher"],
+         callsites={"self.make_tag_pattern": "abs:ActiveTagMatcher.make_tag_pattern",
+                    "super(ActiveTagMatcher, self).__init__": "abs:object.__init__"},
+         modifies=["self.value_provider", "self.tag_pattern", "self.tag_prefixes", "self.ignore_unknown_categories",
+                   "self.exclude_reason"],
+         ensures={"the-given-provider-object-is-kept-even-while-it-is-still-empty":
+                  "implies(not is_none(value_provider), self.value_provider is value_provider)",
+                  "no-provider-means-an-empty-one": "implies(is_none(value_provider), not is_none(self.value_provider))",
+                  "no-exclude-reason-yet": "is_none(self.exclude_reason)"},
+         doc="a provider that is empty at construction time (a dict filled in before_all, a lazy provider) is falsy: it must "
+             "still be the object consulted later")
+contract("abs:object.__init__", trusted=True, pos_params=[], pure=True, doc="TagMatcher.__init__ / object.__init__: no state")
